@@ -680,24 +680,17 @@ Record result := mkResult {
   o_wrote_header1 : bool;      (* wrote_header of the first task *)
 }.
 
-(* HTTPChannel.service for requests[0] *)
-Definition channel_service (c : cfg) (r : req) (a : app) (disc : option nat) : result :=
-  let job : app + ((str * str) * str) := match r_error r with Some e => inr e | None => inl a end in
-  let t0 := new_task (r_version r) (match r_error r with Some _ => true | None => false end) in
-  let s0 : st := (t0, mkChan [] 0) in
-  let serviced := connected disc 0 in
-  let raw := task_run c r disc s0 job in
-  let x :=
-    if serviced then task_service c r disc s0 job
-    else mkExec (set_cof true t0, snd s0) (Ok tt) 0 false false in
+(* HTTPChannel.service after the first task.service() returned or raised:
+   the exception ladder and the close_on_finish branch.  [x] is the first
+   task's result, [raw] what left its execute()/finish(). *)
+Definition ladder (c : cfg) (r : req) (disc : option nat) (x : exec_result) (raw : option exn) : result :=
   let t := fst (x_st x) in
   let ch := snd (x_st x) in
   let fin (s : st) (esc : option exn) (served : bool) :=
     let closing := match esc with None => t_cof (fst s) | Some _ => false end in
     let nexting := match esc with None => negb (t_cof (fst s)) | Some _ => false end in
     mkResult (rev (ch_writes (snd s))) closing nexting (x_closes x) (x_handover x) esc
-             (t_wrote_header (fst s)) served (ch_nws ch)
-             (if serviced then match x_out raw with Exn e => Some e | Ok _ => None end else None)
+             (t_wrote_header (fst s)) served (ch_nws ch) raw
              (x_iter x) (rev (ch_writes ch)) (t_wrote_header t) in
   match x_out x with
   | Ok _ => fin (x_st x) None false
@@ -719,6 +712,17 @@ Definition channel_service (c : cfg) (r : req) (a : app) (disc : option nat) : r
         else fin (set_cof true t, ch) None false
       else fin (t, ch) (Some e) false
   end.
+
+(* HTTPChannel.service for requests[0] *)
+Definition channel_service (c : cfg) (r : req) (a : app) (disc : option nat) : result :=
+  let job : app + ((str * str) * str) := match r_error r with Some e => inr e | None => inl a end in
+  let t0 := new_task (r_version r) (match r_error r with Some _ => true | None => false end) in
+  let s0 : st := (t0, mkChan [] 0) in
+  if connected disc 0 then
+    ladder c r disc (task_service c r disc s0 job)
+           (match x_out (task_run c r disc s0 job) with Exn e => Some e | Ok _ => None end)
+  else
+    ladder c r disc (mkExec (set_cof true t0, snd s0) (Ok tt) 0 false false) None.
 
 (* ThreadedTaskDispatcher.handler_thread: try: task.service() except BaseException: log.
    Gives what the worker logged; the worker itself goes on to the next task. *)
